@@ -152,3 +152,10 @@ check(
     "Conventions: last-with-first contraction, Adjoint = conjugate transpose, canonical argument numbering. Six root-cause families remain as known findings (see known_findings.json / DESIGN.md): Action argument numbering, complex FormSum weights under Adjoint, non-BaseForms inside FormSum, empty Form in the Leibniz rule.",
     "DESIGN.md 3 C28",
 )
+check(
+    "C11",
+    "exhaustive enumeration of 42 parameterised base forms x complete one-step mutation lists, all pairs: signature collision search, equals => signature, rebuild => same signature",
+    "Bounded exhaustive model checking of Form.signature() over 42 parameterised base forms x the complete one-step mutation list of every parameter (literals incl. ulp-apart floats, indices, operators, operand order, elements, meshes, measures, subdomain ids, 29 metadata values incl. arrays, base-form-operator data; thorough: full products, 1110 forms): for all pairs, equal signature => same compiled meaning class (by construction of the generator), a.equals(b) => equal signature, and rebuilding a recipe with shifted counters and fresh indices => same signature.",
+    "Differences are asserted only where the generator changed an attribute a form compiler uses; representation-only differences (2 vs 2.0, list vs tuple, key order, renamed dummy indices) are never asserted. Counters stay in the 4-digit range and PYTHONHASHSEED is fixed (C12's subject).",
+    "DESIGN.md 3 C11",
+)
